@@ -8,6 +8,7 @@ import (
 	"sort"
 	"strings"
 	"sync/atomic"
+	"time"
 
 	"github.com/vicanso/pike/cache"
 	"verifh/hx"
@@ -102,4 +103,21 @@ func checkRaceLog(r *hx.Run) {
 		r.Violate("data_race", map[string]string{"pair": key}, "data race with a pike frame: "+key, txt, nil)
 	}
 	_ = fmt.Sprint
+}
+
+// entryState reads the hooked entry state; ok=false when the entry lock could not be taken within
+// 3 s (somebody holds it at what should be quiescence)
+func entryState(cacheName string, key string) (st cache.VerifEntry, ok bool) {
+	d := cache.GetDispatcher(cacheName)
+	if d == nil {
+		return st, true
+	}
+	ch := make(chan cache.VerifEntry, 1)
+	go func() { ch <- d.VerifEntryState([]byte(key)) }()
+	select {
+	case st = <-ch:
+		return st, true
+	case <-time.After(3 * time.Second):
+		return st, false
+	}
 }
